@@ -6,6 +6,7 @@ import (
 	"regexp"
 	"runtime"
 	"strings"
+	"sync"
 	"time"
 
 	"github.com/emersion/go-sasl"
@@ -102,14 +103,22 @@ func c08Run(ctx *core.Ctx) {
 		for _, reason := range []string{"quit", "disconnect", "errors", "panic"} {
 			for _, who := range []string{"Server.Close", "Conn.Close"} {
 				for rep := 0; rep < 4; rep++ {
-					emit(c08Case{Kind: "closeoverlap", Reason: reason, Failure: who, Cut: rep, Mode: modeSMTP})
+					emit(c08Case{Kind: "closeoverlap", Reason: reason, Failure: who, Cut: rep, Mode: modeSMTP, Seg: "Logout"})
+				}
+			}
+		}
+		// the second closer runs while another callback kind is in progress
+		for _, park := range []string{"NewSession", "Mail", "Rcpt", "Data"} {
+			for _, who := range []string{"Server.Close", "Conn.Close"} {
+				for rep := 0; rep < 4; rep++ {
+					emit(c08Case{Kind: "closeoverlap", Reason: "pipelined", Failure: who, Cut: rep, Mode: modeSMTP, Seg: park})
 				}
 			}
 		}
 		for _, mode := range []srvMode{modeSMTP, modeLMTPRcpt} {
-			for _, reason := range []string{"quit", "errors", "errors:FOO", "errors:ABCDE", "errors:", "errors:mixed", "longline", "timeout", "panic"} {
+			for _, reason := range []string{"quit", "errors", "errors:FOO", "errors:ABCDE", "errors:", "errors:mixed", "longline", "timeout", "panic", "timeout-in-auth", "timeout-in-data"} {
 				for _, rt := range []bool{false, true} {
-					if reason == "timeout" && !rt {
+					if strings.HasPrefix(reason, "timeout") && !rt {
 						continue
 					}
 					core.Strings(c08SuffixAlphabet, 2, func(parts []string) {
@@ -211,7 +220,17 @@ func c08Lifecycle(ctx *core.Ctx, c c08Case, l *rec.Log, replies []wire.Reply, gi
 			openData = openData[1:]
 		}
 	}
+	seq421 := 0
 	for _, e := range ev {
+		if e.Kind == "s2c" && strings.HasPrefix(e.A, "421 ") && seq421 == 0 {
+			seq421 = e.Seq // 421 = "service not available, closing transmission channel"
+		}
+		if seq421 > 0 && e.Seq > seq421 && e.Ph == "b" {
+			switch e.Kind {
+			case "NewSession", "Mail", "Rcpt", "Auth", "SaslNext": // not Data: a chunked delivery begins asynchronously
+				return fail("C08:commands-executed-after-close:421", fmt.Sprintf("%s(%q) executed after the server had announced 421 (closing the transmission channel)", e.Kind, e.A))
+			}
+		}
 		switch {
 		case e.Kind == "NewSession" && e.Ph == "e" && e.Err == "":
 			created[e.Sess] = true
@@ -264,7 +283,7 @@ func c08Desc(c c08Case) string {
 		return fmt.Sprintf("tlscut cut=%d failure=%s", c.Cut, c.Failure)
 	}
 	if c.Kind == "closeoverlap" {
-		return fmt.Sprintf("closeoverlap reason=%s second=%s rep=%d", c.Reason, c.Failure, c.Cut)
+		return fmt.Sprintf("closeoverlap reason=%s second=%s rep=%d parked-in=%s", c.Reason, c.Failure, c.Cut, c.Seg)
 	}
 	return fmt.Sprintf("srvend reason=%s suffix=%v readTimeout=%v mode=%s", c.Reason, c.Suffix, c.ReadTimeout, c.Mode)
 }
@@ -372,7 +391,82 @@ func c08TLSCut(ctx *core.Ctx, c c08Case) {
 
 var finalLine = regexp.MustCompile(`^\d\d\d( |\r?\n|$)`)
 
+// c08TimeoutInside: the idle timeout fires while the server waits for the continuation of an
+// AUTH exchange or for message octets. Whatever it answers, once it has announced 421 nothing
+// of what the client sends later may be executed, and a message cut by the timeout must not
+// be delivered as complete.
+func c08TimeoutInside(ctx *core.Ctx, c c08Case) {
+	ctx.Eval(fmt.Sprintf("srvend|%s|%v|%s", c.Reason, c.Suffix, c.Mode), true)
+	kind := rec.Auth
+	if c.Mode == modeLMTPRcpt {
+		kind = rec.AuthLMTP
+	}
+	rig := wire.NewRig(kind, func(s *smtp.Server) {
+		s.LMTP = c.Mode.lmtp()
+		s.AllowInsecureAuth = true
+		s.ReadTimeout = time.Hour
+	})
+	c08AuthHooks(rig)
+	p := rig.Dial()
+	defer p.Close()
+	var replies []wire.Reply
+	if c.Reason == "timeout-in-auth" {
+		p.SendStr(c.Mode.hello() + "\r\nAUTH PLAIN\r\n")
+		rs, _ := expect(p, 3)
+		replies = append(replies, rs...)
+	} else {
+		p.SendStr(c.Mode.hello() + "\r\nMAIL FROM:<s@x.test>\r\nRCPT TO:<r@x.test>\r\nDATA\r\n")
+		rs, _ := expect(p, 5)
+		replies = append(replies, rs...)
+		p.SendStr("partial body\r\n")
+	}
+	if idle, err := p.Raw.WaitPeerIdle(wire.Watchdog); err != nil || !idle {
+		rig.Finish()
+		ctx.Inconclusive("C08 timeout-inside: server did not go idle")
+		return
+	}
+	if !p.SrvEnd.FireReadDeadline() {
+		p.Close()
+		rig.Finish()
+		ctx.Violate("C08:no-read-deadline", "ReadTimeout is set but the server waits inside "+c.Reason+" without a read deadline", c, witness(rig.Log, replies))
+		return
+	}
+	rs, _ := p.ReadUntilStall()
+	replies = append(replies, rs...)
+	var suffix string
+	for i, t := range c.Suffix {
+		suffix += c08Render(t, c.Mode, i)
+	}
+	p.SendStr(suffix)
+	p.Raw.CloseWrite()
+	rs, rerr := p.ReadAll()
+	replies = append(replies, rs...)
+	p.Close()
+	fin := rig.Finish()
+	ends := waitDataEnds(rig.Log)
+	if isWatchdog(rerr) || !fin || !ends {
+		ctx.Inconclusive("C08 watchdog " + c08Desc(c))
+		return
+	}
+	ctx.Add("replies_parsed", int64(len(replies)))
+	for _, d := range dataEnds(rig.Log.Events()) {
+		if c.Reason == "timeout-in-data" && d.A == "partial body\r\n" && d.B == "EOF" {
+			ctx.Violate("C08:timed-out-message-complete", "a DATA transfer cut by the idle timeout was delivered as complete", c, witness(rig.Log, replies))
+			return
+		}
+	}
+	if c08Lifecycle(ctx, c, rig.Log, replies, 0, c.Reason) {
+		if ctx.WantSample("srvend/" + c.Reason) {
+			ctx.Sample("srvend/"+c.Reason, map[string]any{"reason": c.Reason, "suffix": c.Suffix, "mode": c.Mode, "replies": codes(replies)})
+		}
+	}
+}
+
 func c08SrvEnd(ctx *core.Ctx, c c08Case) {
+	if c.Reason == "timeout-in-auth" || c.Reason == "timeout-in-data" {
+		c08TimeoutInside(ctx, c)
+		return
+	}
 	ctx.Eval(fmt.Sprintf("srvend|%s|%v|%v|%s", c.Reason, c.Suffix, c.ReadTimeout, c.Mode), true)
 	rig := newRig(c.Mode, func(s *smtp.Server) {
 		if c.ReadTimeout {
@@ -498,7 +592,7 @@ func c08SrvEnd(ctx *core.Ctx, c c08Case) {
 // panic) is held inside Session.Logout while a second closer (Server.Close or Conn.Close from
 // another goroutine) runs; the session must still be logged out exactly once.
 func c08CloseOverlap(ctx *core.Ctx, c c08Case) {
-	ctx.Eval(fmt.Sprintf("closeoverlap|%s|%s|%d", c.Reason, c.Failure, c.Cut), true)
+	ctx.Eval(fmt.Sprintf("closeoverlap|%s|%s|%d|%s", c.Reason, c.Failure, c.Cut, c.Seg), true)
 	rig := newRig(c.Mode, nil)
 	gate := rec.NewGate()
 	defer gate.OpenAll()
@@ -508,20 +602,49 @@ func c08CloseOverlap(ctx *core.Ctx, c c08Case) {
 		}
 		return nil
 	}
-	rig.BE.H.Logout = func(sess int) error {
-		gate.Wait("logout")
+	park := c.Seg
+	if park == "" {
+		park = "Logout"
+	}
+	var parkOnce sync.Once
+	parkAt := func(name string) {
+		if name == park {
+			parkOnce.Do(func() { gate.Wait("logout") })
+		}
+	}
+	rig.BE.H.Logout = func(sess int) error { parkAt("Logout"); return nil }
+	rig.BE.H.NewSession = func(*smtp.Conn, int) error { parkAt("NewSession"); return nil }
+	inner := rig.BE.H.Mail
+	rig.BE.H.Mail = func(sess int, from string, o *smtp.MailOptions) error {
+		parkAt("Mail")
+		return inner(sess, from, o)
+	}
+	rig.BE.H.Rcpt = func(int, string, *smtp.RcptOptions) error { parkAt("Rcpt"); return nil }
+	rig.BE.H.Data = func(sess int, r *rec.Reader, st smtp.StatusCollector) error {
+		parkAt("Data")
+		r.ReadAll(32)
 		return nil
 	}
 	p := rig.Dial()
-	p.SendStr(c.Mode.hello() + "\r\n")
-	if _, err := expect(p, 2); err != nil {
-		gate.OpenAll()
-		p.Close()
-		rig.Finish()
-		ctx.Inconclusive("C08 closeoverlap preamble")
-		return
-	}
 	var conn *smtp.Conn
+	if c.Reason == "pipelined" {
+		p.SendStr(c.Mode.hello() + "\r\nMAIL FROM:<s@x.test>\r\nRCPT TO:<r@x.test>\r\nDATA\r\nbody\r\n.\r\nQUIT\r\n")
+	} else {
+		p.SendStr(c.Mode.hello() + "\r\n")
+		if _, err := expect(p, 2); err != nil {
+			gate.OpenAll()
+			p.Close()
+			rig.Finish()
+			ctx.Inconclusive("C08 closeoverlap preamble")
+			return
+		}
+	}
+	if park != "NewSession" {
+		// the *smtp.Conn is known once NewSession has been entered
+		rig.Log.WaitFor(func(e rec.Event) bool { return e.Kind == "NewSession" && e.Ph == "e" }, nil)
+	} else {
+		rig.Log.WaitFor(func(e rec.Event) bool { return e.Kind == "NewSession" && e.Ph == "b" }, nil)
+	}
 	rig.BE.Lock()
 	conn = rig.BE.Conns[1]
 	rig.BE.Unlock()
@@ -579,6 +702,8 @@ func c08CloseOverlap(ctx *core.Ctx, c c08Case) {
 	for i := 0; i < 200; i++ {
 		runtime.Gosched()
 	}
+	waitDataEnds(rig.Log)
+	c20WaitLogouts(rig.Log)
 	if c08Lifecycle(ctx, c, rig.Log, rs, 0, c.Reason) {
 		if ctx.WantSample("closeoverlap/" + c.Reason) {
 			ctx.Sample("closeoverlap/"+c.Reason, map[string]any{"reason": c.Reason, "second_closer": c.Failure, "logouts": len(eventsOf(rig.Log.Events(), "Logout", "b"))})
